@@ -703,6 +703,16 @@ fn show_pairs(p: &[(String, Value)]) -> String {
     format!("Ok {} | {}", p.len(), p.iter().map(|(c, r)| format!("{}:{}", c, show_json(r, true))).collect::<Vec<_>>().join(";"))
 }
 
+/// same function as PR.force_hash: the payload is always replaced by its hash
+fn force_hash_line(line: &str) -> String {
+    let mut it = line.splitn(3, ' ');
+    let (tag, id, payload) = (it.next().unwrap_or(""), it.next().unwrap_or(""), it.next().unwrap_or(""));
+    let mut h: u64 = 7;
+    for b in payload.bytes() {
+        h = (h.wrapping_mul(1000003).wrapping_add(b as u64)) & 0x7fff_ffff_ffff_ffff;
+    }
+    format!("{} {} #{}", tag, id, h)
+}
 fn safe_text(v: &Value) -> bool {
     // the canonical printers agree only on plain strings (see Base/Json.v)
     match v {
@@ -785,9 +795,9 @@ fn run_case(st: &mut Stream, apps: &mut Apps, case: &Case, timeout: u64) -> bool
     };
     let single = case.user.as_array().filter(|a| a.len() == 1).map(|a| a[0].clone());
     let in_k = yens_k.is_some() && single.as_ref().map(|q| q.get("k").and_then(|k| k.as_u64()).unwrap_or(yens_k.unwrap() as u64) >= 2).unwrap_or(false);
-    let m_term = if !safe_text(&case.user) {
-        format!("line \"M\" {} \"unsafe text in case\"", id)
-    } else if in_k {
+    // strings beyond plain ASCII: both sides are compared through the hash of the payload bytes
+    let force = !safe_text(&case.user) || !safe_text(&cfg_to_json(cfg)["inputs"]);
+    let m_term = if in_k {
         // known-finding class: the search is the model's own Yen's loop on the recorded shortest route
         match underlying_route(apps, cfg, single.as_ref().unwrap(), timeout) {
             Some(route) if route.len() <= 2 => format!(
@@ -847,7 +857,12 @@ fn run_case(st: &mut Stream, apps: &mut Apps, case: &Case, timeout: u64) -> bool
     } else {
         st.mark_nontrivial(&format!("{}{}", case.cfg_id, case.user));
     }
-    st.case(vec![m_term, s_term], vec![format!("I {} {}", id, i_payload)], desc);
+    let (m_term, s_term, i_line) = if force {
+        (format!("PR.force_hash ({})", m_term), format!("PR.force_hash ({})", s_term), force_hash_line(&format!("I {} {}", id, i_payload)))
+    } else {
+        (m_term, s_term, format!("I {} {}", id, i_payload))
+    };
+    st.case(vec![m_term, s_term], vec![i_line], desc);
     let any_k = yens_k.is_some()
         && case.user.as_array().map(|a| a.iter().any(|q| q.get("k").and_then(|k| k.as_u64()).unwrap_or(yens_k.unwrap() as u64) >= 2)).unwrap_or(false);
     matches!(outcome, RunOutcome::Hang) && !any_k
